@@ -96,6 +96,14 @@ class Sim:
         self.addr2name = {}
         for i in range(nserv):
             host = "mc%d" % i
+            if unix == "multi":
+                # every server name resolves to two addresses (IPv6 first, then IPv4 - a dual-stack host): one attempt on a
+                # server that is down is still one contact
+                srv_ = self.net.add_server(host, 11211, RefServer(self.clock, name=host), ips=["2001:db8::%d" % (i + 1), "10.0.7.%d" % (i + 1)])
+                self.servers["%s:11211" % host] = srv_
+                self.names.append("%s:11211" % host)
+                specs.append((host, 11211))
+                continue
             if unix and i == 0:
                 # server 0 is a UNIX socket: its identity is a str all the way through the fail-over bookkeeping
                 path = "/var/run/memcached/mc0.sock"
@@ -523,7 +531,7 @@ def shard(tier, seed, idx, n):
     res = common.Result()
     A = reduced_alphabet()
     depth = 5 if tier == "quick" else 6
-    cfgs = [(2, ra, ign, pool) for ra in (0, 1, 2) for ign in (False, True) for pool in (False, True)]
+    cfgs = [(2, ra, ign, pool) for ra in (0, 1, 2) for ign in (False, True) for pool in (False, True)] + [(2, ra, ign, False, "multi") for ra in (0, 1, 2) for ign in (False, True)]
     states = set()
     work = 0
     # sequences must start with a failure event to be interesting; enumerate all with the first failure anywhere
@@ -541,7 +549,8 @@ def shard(tier, seed, idx, n):
         for nserv in (2, 3):
             for ra in (0, 1, 2):
                 for ign in (False, True):
-                    for pool, unix, own in ((False, False, False), (True, False, False), (False, True, False), (False, False, True)):
+                    for pool, unix, own in ((False, False, False), (True, False, False), (False, True, False), (False, False, True),
+                                            (False, "multi", False)):
                         for bad in range(nserv):
                             for kind in ("refused", "reset"):
                                 for opn in ("setmanyget_pairs", "setmanyget", "set_many", "setget_pair", "getmany_vs_get", "get"):
@@ -560,7 +569,8 @@ def shard(tier, seed, idx, n):
     count = 60 if tier == "quick" else 1500
     for i in range(count):
         nserv = rng.choice([2, 3])
-        cfg = (nserv, rng.choice([0, 1, 2]), rng.random() < 0.5, rng.random() < 0.3, rng.random() < 0.25, rng.random() < 0.25)
+        cfg = (nserv, rng.choice([0, 1, 2]), rng.random() < 0.5, rng.random() < 0.3,
+               rng.choice((False, False, False, False, True, True, "multi", "multi")), rng.random() < 0.25)
         path = run_sequence(res, cfg, random_sequence(rng, nserv), epilogue=True, label="rand")
         states.update(path)
         res.count("random_sequences")
